@@ -365,12 +365,12 @@ func (o *orch) plan(scale float64) counts {
 			c = counts{plain: 600000, maxOps: 40, chunk: 2500, tupleEvery: 25}
 		}
 	case "C07":
-		c = counts{plain: 8000, race: 2400, cold: 480, sweep: 32, chunk: 125}
+		c = counts{plain: 6400, race: 1920, cold: 480, sweep: 24, chunk: 100}
 		if thorough {
 			c = counts{plain: 400000, race: 60000, cold: 12000, sweep: 64, chunk: 1000, tupleEvery: 10}
 		}
 	case "C15":
-		c = counts{plain: 64000, chunk: 500, tupleEvery: 4}
+		c = counts{plain: 48000, chunk: 375, tupleEvery: 4}
 		if thorough {
 			c = counts{plain: 800000, chunk: 2500, tupleEvery: 8}
 		}
